@@ -65,6 +65,8 @@ var targets = []target{
 	{dir: ".", files: []string{"event.go"}, funcs: []string{"read"}, out: "Event", joins: true},
 	// the MessageWriter a provider is handed: Session over any response writer
 	{dir: ".", files: []string{"message.go", "message_fields.go", "session.go"}, funcs: []string{"Session.doUpgrade", "Session.Send", "Session.Flush"}, out: "Session", joins: true},
+	// Server.Publish's topic defaulting
+	{dir: ".", files: []string{"server.go"}, funcs: []string{"getTopics"}, out: "Server"},
 	// the client's back-off controller (float64 as an abstract carrier, the PRNG as the list of its draws, the clock as a parameter)
 	{dir: ".", files: []string{"client.go", "client_connection.go", "event.go"}, funcs: []string{"nextInterval", "growInterval", "backoffController.reset", "backoffController.next"}, out: "Backoff"},
 }
